@@ -557,7 +557,17 @@ impl<Front: SocketHandler> ConnectionH1<Front> {
         let can_finalize_server_close = matches!(self.position, Position::Server)
             && kawa.is_terminated()
             && kawa.is_completed();
-        if io_slices.is_empty() && !self.socket.socket_wants_write() && !can_finalize_server_close {
+        // A response demoted to the Error phase (`forcefully_terminate_answer`:
+        // the backend failed or timed out after part of the response was
+        // relayed) can neither be completed nor replaced by a default answer:
+        // on HTTP/1.1 the only way to tell the client is to close the connection.
+        let response_aborted =
+            matches!(self.position, Position::Server) && kawa.is_error() && kawa.is_completed();
+        if io_slices.is_empty()
+            && !self.socket.socket_wants_write()
+            && !can_finalize_server_close
+            && !response_aborted
+        {
             self.readiness.interest.remove(Ready::WRITABLE);
             return MuxResult::Continue;
         }
@@ -588,6 +598,9 @@ impl<Front: SocketHandler> ConnectionH1<Front> {
         }
         if !tls_only_flush && should_yield {
             return MuxResult::Continue;
+        }
+        if response_aborted {
+            return self.defer_close_for_tls_flush("response-aborted");
         }
 
         if kawa.is_terminated() && kawa.is_completed() {
